@@ -55,7 +55,7 @@ mod proofs {
         std::mem::forget(be); std::mem::forget(ctx);
     }
 
-    // @harness id=C11 tier=thorough unwind=8 timeout=2400 fs=4096
+    // @harness id=C11 tier=quick unwind=8 timeout=2400 fs=4096
     // @desc shorter inputs are zero-padded (decode(encode(v[..2])) = [v0, v1, 0, 0]); encode_polynomial reduces every coefficient mod t and decode_polynomial returns it
     // @bounds BFV N=4, t=17; input length 2; polynomial of 3 arbitrary 16-bit coefficients
     // @funcs BatchEncoder::encode, BatchEncoder::decode, BatchEncoder::encode_polynomial, BatchEncoder::decode_polynomial
